@@ -138,9 +138,21 @@ func (p *Plan) Summary(max int) map[string]any {
 // MakePlan generates a history using the oracles only (no iavl), so the same plan can be
 // executed several times (twins, configurations).
 func MakePlan(rng *rand.Rand, p *GenParams) *Plan {
+	return MakePlanFrom(rng, p, nil, nil)
+}
+
+// MakePlanFrom plans a history that continues from an existing oracle state (cloned) over a
+// given key universe.
+func MakePlanFrom(rng *rand.Rand, p *GenParams, from *Oracle, universe [][]byte) *Plan {
 	cfg := DrawConfig(rng, p)
-	pl := &Plan{Cfg: cfg, Universe: Universe(rng, p.MaxKeys)}
+	pl := &Plan{Cfg: cfg, Universe: universe}
+	if universe == nil {
+		pl.Universe = Universe(rng, p.MaxKeys)
+	}
 	o := NewOracle(cfg.Initial)
+	if from != nil {
+		o = &Oracle{M: from.M.Clone(), R: from.R.Clone()}
+	}
 	nops := p.MinOps + rng.Intn(p.MaxOps-p.MinOps+1)
 	total := 0
 	kinds := []string{"set", "rm", "save", "rollback", "reopen", "load", "delto", "lfo", "delfrom"}
